@@ -219,9 +219,9 @@ class All(Part):
              dict(senders=[[2]], drop=True, mode="replay", choices=D12_WITNESS),
              dict(senders=[[2]], drop=False, mode="dfs", max_execs=2500)]
         t = [dict(senders=[[2]], drop=True, mode="dfs", max_execs=400000),
-             dict(senders=[[2, 3]], drop=True, mode="walk", max_execs=30000),
-             dict(senders=[[2], [3]], drop=True, mode="walk", max_execs=30000),
-             dict(senders=[[2, 3, 4]], drop=True, mode="walk", max_execs=20000),
+             dict(senders=[[2, 3]], drop=True, mode="walk", max_execs=15000),
+             dict(senders=[[2], [3]], drop=True, mode="walk", max_execs=15000),
+             dict(senders=[[2, 3, 4]], drop=True, mode="walk", max_execs=10000),
              dict(senders=[[2, 3]], drop=True, mode="dfs", max_execs=80000)]
         return [dict(c, seed=rng.randrange(1 << 30)) for c in (t if tier == "thorough" else []) + q]
 
